@@ -12,6 +12,7 @@ struct Case {
     std::vector<uint8_t> bytes; // entropy: tree shape, contents and spelling choices
     int                  width{1};
     int                  alias{0}; // 1: strings also hold look-alike code points (jm::look_alike_cps); absent in older replay files
+    int                  ls_n{0}, ls_esc{0}, ls_place{0}; // replay of a long-string enumeration case (ls_n > 0)
 };
 
 struct Doc {
@@ -161,9 +162,130 @@ void run_width(const Case &c, pbt::Ctx &ctx) {
 }
 #endif
 
+#ifndef VERIF_C07
+// A long string (255 .. 1,048,577 units) with no escape, or one at its start / middle / end, as an array element, a member value or
+// a member key: the parsed string must have exactly the decoded units.
+template <typename Char_T>
+bool long_string_case(unsigned n, int esc, int place, std::string &why) {
+    jm::Units doc, want;
+    auto      add = [&doc](const char *t) {
+        for (; *t; ++t) {
+            doc.push_back((unsigned char)*t);
+        }
+    };
+    auto body = [&]() {
+        doc.push_back('"');
+        for (unsigned i = 0; i < n; ++i) {
+            if ((esc == 1 && i == 0) || (esc == 2 && i == n / 2) || (esc == 3 && i + 1 == n)) {
+                if (i % 2 == 0) {
+                    add("\\n");
+                    want.push_back('\n');
+                } else {
+                    add("\\u00e9");
+                    if (sizeof(Char_T) == 1) {
+                        want.push_back(0xC3);
+                        want.push_back(0xA9);
+                    } else {
+                        want.push_back(0xE9);
+                    }
+                }
+            } else {
+                doc.push_back('a' + (i % 23));
+                want.push_back('a' + (i % 23));
+            }
+        }
+        doc.push_back('"');
+    };
+    if (place == 0) {
+        add("[1,");
+        body();
+        add("]");
+    } else if (place == 1) {
+        add("{\"k\":");
+        body();
+        add("}");
+    } else {
+        add("{");
+        body();
+        add(":true}");
+    }
+    jm::Buf<Char_T> b(doc);
+    Value<Char_T>   v = JSON::Parse(b.p, SizeT(b.n));
+    if (v.IsUndefined()) {
+        why = "document rejected";
+        return false;
+    }
+    const Char_T *p   = nullptr;
+    SizeT         len = 0;
+    if (place == 0 && v.IsArray() && v.Size() == 2 && v.GetValue(1) != nullptr && v.GetValue(1)->IsString()) {
+        p   = v.GetValue(1)->StringStorage();
+        len = v.GetValue(1)->Length();
+    } else if (place == 1 && v.IsObject() && v.Size() == 1 && v.GetValue(0) != nullptr && v.GetValue(0)->IsString()) {
+        p   = v.GetValue(0)->StringStorage();
+        len = v.GetValue(0)->Length();
+    } else if (place == 2 && v.IsObject() && v.Size() == 1 && v.GetKey(0) != nullptr) {
+        p   = v.GetKey(0)->First();
+        len = v.GetKey(0)->Length();
+    } else {
+        why = "wrong structure";
+        return false;
+    }
+    if (size_t(len) != want.size()) {
+        why = "length " + std::to_string(len) + " instead of " + std::to_string(want.size());
+        return false;
+    }
+    for (SizeT i = 0; i < len; ++i) {
+        if (jm::unit_of(p[i]) != want[i]) {
+            why = "unit " + std::to_string(i) + " differs";
+            return false;
+        }
+    }
+    return true;
+}
+#endif
+
 struct H {
     using Case = ::Case;
 #ifndef VERIF_C07
+    // "long-strings": every (length, escape position, place, width) combination
+    static void enumerate(pbt::Ctx &ctx, unsigned shard, unsigned nshards, const std::string &what) {
+        if (what != "long-strings") {
+            fprintf(stderr, "unknown enumeration %s\n", what.c_str());
+            exit(3);
+        }
+        static const unsigned lens[] = {255, 256, 257, 4095, 4097, 16383, 16385, 65535, 65537, 262143, 262145, 300000, 1048577};
+        unsigned              idx    = 0;
+        for (unsigned n : lens) {
+            for (int esc = 0; esc < 4; ++esc) {
+                for (int place = 0; place < 3; ++place) {
+                    for (int w : {1, 2, 4}) {
+                        if ((idx++ % nshards) != shard) {
+                            continue;
+                        }
+                        Qentem::MemoryRecord::Reset();
+                        std::string why;
+                        const bool  ok = w == 1 ? long_string_case<char>(n, esc, place, why) : w == 2 ? long_string_case<char16_t>(n, esc, place, why)
+                                                                                                      : long_string_case<char32_t>(n, esc, place, why);
+                        ++ctx.evaluations;
+                        ++ctx.nontrivial_counted;
+                        ++ctx.nontrivial_total;
+                        if (!ok || Qentem::MemoryRecord::Live() != 0) {
+                            ctx.failed    = true;
+                            ctx.fail_cls  = ok ? "ledger" : "long-string-wrong";
+                            ctx.fail_msg  = "string of " + std::to_string(n) + " units, escape position " + std::to_string(esc) + ", place " + std::to_string(place) +
+                                            ", " + std::to_string(w) + "-byte units: " + (ok ? "blocks still live" : why);
+                            ctx.fail_text = "long_string=" + std::to_string(n) + "," + std::to_string(esc) + "," + std::to_string(place) + "\nwidth=" + std::to_string(w) + "\nbytes=\n";
+                            ctx.write_stats();
+                            return;
+                        }
+                    }
+                }
+            }
+        }
+        ctx.distinct_by_construction = true;
+        ctx.exhaustive               = true;
+        ctx.exhaustive_what          = "long strings: 13 lengths x 4 escape positions x 3 places x 3 unit widths (468 documents, sharded)";
+    }
     static const char *name() { return "C06 RFC 8259 documents parse to the denoted value"; }
 #else
     static const char *name() { return "C07 all-or-nothing parsing"; }
@@ -200,6 +322,10 @@ struct H {
         kv.put("bytes", hex);
         kv.put("width", c.width);
         kv.put("alias", c.alias);
+        if (c.ls_n > 0) {
+            kv.put("long_string", std::to_string(c.ls_n) + "," + std::to_string(c.ls_esc) + "," + std::to_string(c.ls_place));
+            return kv.text();
+        }
         kv.put("doc", pbt::enc_units(make_doc(c).cps)); // derived, for the reader (and the python cross-check)
         return kv.text();
     }
@@ -212,9 +338,25 @@ struct H {
         }
         c.width = int(kv.geti("width", 1));
         c.alias = int(kv.geti("alias", 0));
+        if (kv.has("long_string")) {
+            sscanf(kv.get("long_string").c_str(), "%d,%d,%d", &c.ls_n, &c.ls_esc, &c.ls_place);
+        }
         return c;
     }
     static void run(const Case &c, pbt::Ctx &ctx) {
+#ifndef VERIF_C07
+        if (c.ls_n > 0) {
+            std::string why;
+            const bool  ok = c.width == 1 ? long_string_case<char>(unsigned(c.ls_n), c.ls_esc, c.ls_place, why)
+                             : c.width == 2 ? long_string_case<char16_t>(unsigned(c.ls_n), c.ls_esc, c.ls_place, why)
+                                            : long_string_case<char32_t>(unsigned(c.ls_n), c.ls_esc, c.ls_place, why);
+            ctx.nontrivial();
+            if (!ok) {
+                ctx.fail("long-string-wrong", why);
+            }
+            return;
+        }
+#endif
         ctx.label(c.width == 1 ? "utf-8" : c.width == 2 ? "utf-16" : "utf-32");
         switch (c.width) {
             case 1: run_width<char>(c, ctx); break;
